@@ -132,3 +132,54 @@ Theorem first_feasible_none feas vs : requested_ok vs -> first_feasible feas vs 
 Proof.
   intros Hok E x Hx. unfold first_feasible in E. apply (find_none _ _ E). apply (neighborhood_exact vs Hok), Hx.
 Qed.
+
+(* ---------- the imputation cache ---------- *)
+Lemma nvar_eqb_eq a b : nvar_eqb a b = true -> a = b.
+Proof.
+  destruct a as [[n c] f], b as [[n' c'] f']. unfold nvar_eqb. simpl. intros H.
+  apply andb_true_iff in H. destruct H as [H Hf]. apply andb_true_iff in H. destruct H as [Hn Hc].
+  apply Nat.eqb_eq in Hn. apply Z.eqb_eq in Hc. apply eqb_prop in Hf. subst. reflexivity.
+Qed.
+
+Lemma req_eqb_eq : forall a b, req_eqb a b = true -> a = b.
+Proof.
+  induction a as [|x a IH]; intros [|y b] H; simpl in H; try discriminate; [reflexivity|].
+  apply andb_true_iff in H. destruct H as [H1 H2]. apply nvar_eqb_eq in H1. apply IH in H2. subst. reflexivity.
+Qed.
+
+Definition cache_sound (feas : list Z -> bool) (c : icache) : Prop :=
+  forall r v, ilookup c r = Some v -> v = first_feasible feas r.
+
+Lemma decode_cached_sound feas c r : cache_sound feas c ->
+  snd (decode_cached feas c r) = first_feasible feas r /\ cache_sound feas (fst (decode_cached feas c r)).
+Proof.
+  intros Hc. unfold decode_cached. destruct (ilookup c r) as [v|] eqn:E; simpl.
+  - split; [apply Hc, E|exact Hc].
+  - split; [reflexivity|]. intros r' v' H. simpl in H. destruct (req_eqb r r') eqn:Er.
+    + apply req_eqb_eq in Er. subst. inversion H. reflexivity.
+    + apply Hc, H.
+Qed.
+
+(* with the request as the only key, a decode is the same function of the request after any history of decodes *)
+Theorem decode_cached_pure feas : forall (hist : list request) r,
+  let c := fold_left (fun c q => fst (decode_cached feas c q)) hist [] in
+  snd (decode_cached feas c r) = first_feasible feas r.
+Proof.
+  intros hist r. cbv zeta.
+  assert (H : cache_sound feas (fold_left (fun c q => fst (decode_cached feas c q)) hist [])).
+  { assert (G : forall c, cache_sound feas c -> cache_sound feas (fold_left (fun c q => fst (decode_cached feas c q)) hist c)).
+    { induction hist as [|q t IH]; intros c Hc; simpl; [exact Hc|]. apply IH, (decode_cached_sound feas c q Hc). }
+    apply G. intros r' v' H'. discriminate. }
+  exact (proj1 (decode_cached_sound feas _ r H)).
+Qed.
+
+(* storing the result under every vector tried on the way is not: two variables with two options each, feasible iff the
+   first is 1; after decoding (0,1) -- tried (0,1), (0,0), (1,1) -- the request (0,0) answers (1,1), a fresh search (1,0) *)
+Definition w_feas (x : list Z) : bool := match x with a :: _ => Z.eqb a 1 | [] => false end.
+Definition w_r1 : request := [(2%nat, 0, false); (2%nat, 1, false)].
+Definition w_r2 : request := [(2%nat, 0, false); (2%nat, 0, false)].
+
+Theorem decode_cached_all_refuted :
+  snd (decode_cached_all w_feas (fst (decode_cached_all w_feas [] w_r1)) w_r2) <> snd (decode_cached_all w_feas [] w_r2) /\
+  snd (decode_cached w_feas (fst (decode_cached w_feas [] w_r1)) w_r2) = snd (decode_cached w_feas [] w_r2).
+Proof. vm_compute. split; [discriminate|reflexivity]. Qed.
